@@ -262,7 +262,10 @@ type Source struct {
 	Data    []byte
 	Sched   []int
 	FaultAt int
-	pos, i  int
+	// EOFWithData: the read that delivers the last bytes returns them together with io.EOF (io.Reader allows it;
+	// iotest.DataErrReader, some network and archive readers do it)
+	EOFWithData bool
+	pos, i      int
 	faulted bool
 	Calls   int
 }
@@ -310,6 +313,9 @@ func (s *Source) Read(p []byte) (int, error) {
 	}
 	copy(p, s.Data[s.pos:s.pos+n])
 	s.pos += n
+	if s.EOFWithData && s.pos >= len(s.Data) && n > 0 {
+		return n, io.EOF
+	}
 	return n, nil
 }
 
@@ -330,4 +336,30 @@ func SourceSchedule(t *rapid.T, label string) []int {
 	default:
 		return rapid.SliceOfN(rapid.SampledFrom([]int{1, 2, 3, 4, 5, 7, 60, 100, 1000, 4095, 4096, 4097}), 1, 6).Draw(t, label)
 	}
+}
+
+// A schedule whose first entry is EOFMark asks for a Source that returns its last bytes together with io.EOF
+// (the remaining entries are the delivery schedule; see SourceFor).
+const EOFMark = -7
+
+// SourceFor builds the Source for a schedule drawn by SourceScheduleEOF.
+func SourceFor(data []byte, sched []int) *Source {
+	if len(sched) > 0 && sched[0] == EOFMark {
+		s := NewSource(data, sched[1:])
+		s.EOFWithData = true
+		return s
+	}
+	return NewSource(data, sched)
+}
+
+// SourceScheduleEOF is SourceSchedule plus, in a fifth of the non-nil cases, the data-with-EOF mode.
+func SourceScheduleEOF(t *rapid.T, label string) []int {
+	s := SourceSchedule(t, label)
+	if rapid.IntRange(0, 4).Draw(t, label+"_eofdata") == 0 {
+		if s == nil {
+			s = []int{1 << 20}
+		}
+		return append([]int{EOFMark}, s...)
+	}
+	return s
 }
